@@ -27,7 +27,8 @@ RULE = ("Path strings from a grammar ('..', '.', empty, names, 'data', 'metadata
         "a sentinel tree and a sibling 'root2'. Oracle: (1) sentinel fingerprint (names, contents, mtimes, link targets) unchanged; (2) a process-wide audit "
         "hook records open/listdir/scandir/remove/rename/mkdir/rmdir/utime/truncate/symlink/link: any event on a path inside the base but outside the canonical "
         "root is a violation; paths handed to the native parquet reader/writer are recorded the same way; (3) a path whose canonical resolution leaves the "
-        "root must raise. Non-trivial: the path, resolved naively, lands in the sentinel tree / sibling. distinct = (entry point, path).")
+        "root must raise. Object storage: a table at key prefix 'warehouse/t1/' next to sibling objects (t10, t1x, bucket root); the same path grammar to depth 3 "
+        "(thorough 4) x 17 entry points, every request the fake S3 receives must carry a key that literally starts with the table's prefix. Non-trivial: the path, resolved naively, lands in the sentinel tree / sibling. distinct = (entry point, path).")
 ASSUMPTIONS = ["stat/lstat/readlink are existence probes and are not flagged (the statement speaks of reading content, writing, deleting, renaming, listing)",
                "native (pyarrow) opens are observed through the path arguments passed to pyarrow.parquet from the library's modules, not through ptrace"]
 REQUIRED_LABELS = {"quick": ["escaping", "tampered", "via-symlink-root"], "thorough": ["escaping", "tampered"]}
@@ -516,6 +517,71 @@ def deep_path(draw):
     return {"kind": "path", "path": pre + sep.join(comps), "ep": draw(st.sampled_from(STORAGE_EPS + DFM_EPS)), "via_symlink": draw(st.booleans())}
 
 
+# object storage: the table root is the key prefix '<env prefix>/<table>/'; S3 keys are literal strings, so the only way out is a
+# key that does not start with that prefix. Every request the fake S3 receives is recorded.
+S3_COMPONENTS = ["..", ".", "", "data", "metadata", "t10", "t1", "x.parquet", "secret.txt", "manifests"]
+S3_EPS = ["read_file", "read_json", "open_file", "open_seekable", "write_file", "write_json", "exists", "list_files", "delete_file", "get_size", "get_modified_time",
+          "create_lock", "dfm.read_data_file", "dfm.open_parquet_source", "dfm.write_data_file", "tx.append_files", "tx.delete_files"]
+
+
+class _S3L:
+    """Just enough of Layout for call_ep."""
+
+    def __init__(self, t, location):
+        self.t, self.location = t, location
+
+
+def run_s3paths(task):
+    from ..world import S3World
+
+    res = Result()
+    w = S3World(table="t1", env_prefix="warehouse")
+    root = w.key_prefix + "/"
+    with w.env():
+        t = w.create(make_schema(FIELDS))
+        t.append_records([{"k": 1, "s": "a"}])
+        sentinels = {"warehouse/t10/data/x.parquet": b"SIBLING", "warehouse/t10/metadata.version-hint.text": b"v9", "warehouse/t1x/secret.txt": b"S1",
+                     "warehouse/secret.txt": b"S2", "secret.txt": b"S3", "data/x.parquet": b"S4", "other/t1/data/x.parquet": b"S5", "warehouse/t1": b"S6"}
+        for k, b in sentinels.items():
+            w.fake.raw_put(k, b)
+        fp0 = {k: (w.fake.objects[k]["body"], w.fake.objects[k]["etag"]) for k in sentinels}
+        paths = []
+        for dpt in range(1, task["depth"] + 1):
+            for combo in itertools.product(S3_COMPONENTS, repeat=dpt):
+                rel = "/".join(combo)
+                paths += [rel, "/" + rel]
+        paths += ["../t10/data/x.parquet", "/data/../../t10/data/x.parquet", "data/../../../secret.txt", "../../secret.txt", "..//t10/data/x.parquet", "data/./../../t1x/secret.txt",
+                  "s3://bkt/warehouse/t10/data/x.parquet", "/warehouse/t10/data/x.parquet", "warehouse/t10/data/x.parquet", "../t1x/secret.txt", "..", "../", "/..", "../t10"]
+        L = _S3L(t, w.location())
+        seen = []
+        w.fake.hook = lambda phase, op, key, req: seen.append((op, key)) if phase == "before" else None
+        try:
+            for i, path in enumerate(paths):
+                if i % task["nshard"] != task["shard"]:
+                    continue
+                for ep in S3_EPS:
+                    del seen[:]
+                    try:
+                        call_ep(L, ep, path)
+                        outcome = "ok"
+                    except Exception:
+                        outcome = "raise"
+                    bad = [(op, key) for op, key in seen if not str(key).startswith(root)]
+                    naive = os.path.normpath("/" + root + path.lstrip("/")).lstrip("/")
+                    nt = not (naive + "/").startswith(root)
+                    case = {"kind": "s3path", "ep": ep, "path": path}
+                    res.case(key=f"s3|{ep}|{path}", nontrivial=nt, labels=["s3", "escaping" if nt else "inside", f"outcome:{outcome}"], sample=case if nt and i % 211 == 0 else None)
+                    if bad:
+                        res.violation(f"outside-access/s3/{ep}/{bad[0][0]}", f"{ep}({path!r}) on the table at key prefix {root!r} sent {bad[:3]} - keys outside the table's prefix", case)
+        finally:
+            w.fake.hook = None
+        fp1 = {k: (w.fake.objects[k]["body"], w.fake.objects[k]["etag"]) if k in w.fake.objects else None for k in sentinels}
+        if fp1 != fp0:
+            res.violation("sentinel-changed/s3", f"objects outside the table prefix changed: {[k for k in sentinels if fp1[k] != fp0[k]]}", {"kind": "s3paths", "task": task})
+    res.extra["s3_exhaustive_to_depth"] = task["depth"]
+    return res
+
+
 def plan(tier, seed):
     tasks = []
     for via in (False, True):
@@ -528,6 +594,8 @@ def plan(tier, seed):
             tasks.append({"kind": "tamper", "via_symlink": via, "shard": s, "nshard": ns})
     for s in range(3):
         tasks.append({"kind": "late", "shard": s, "nshard": 3})
+    for s in range(4):
+        tasks.append({"kind": "s3paths", "depth": 3 if tier == "quick" else 4, "shard": s, "nshard": 4})
     n = 150 if tier == "quick" else 8000
     for s in range(2 if tier == "quick" else 8):
         tasks.append({"kind": "deep", "n": n, "seed": seed * 1000 + s, "tier": tier})
@@ -541,6 +609,8 @@ def run_task(task):
         return run_tampered(task)
     if task["kind"] == "late":
         return run_late_symlinks(task)
+    if task["kind"] == "s3paths":
+        return run_s3paths(task)
     res = Result()
     install_hook()
     state = {}
@@ -574,6 +644,9 @@ def run_task(task):
 def replay(case):
     install_hook()
     out = []
+    if case["kind"] in ("s3path", "s3paths"):
+        r = run_s3paths({"depth": 3, "shard": 0, "nshard": 1})
+        return [{"bucket": v["bucket"], "what": v["what"]} for v in r.violations if case["kind"] == "s3paths" or (v["case"].get("ep") == case["ep"] and v["case"].get("path") == case["path"])][:3]
     with scratch_dir("c17r") as d:
         L = Layout(d, case.get("via_symlink", False))
         tmp = Result()
